@@ -45,6 +45,42 @@ CHECKS.update({
         ref='4/C07', engine='rv-reference'),
 })
 
+CHECKS.update({
+    'C08': dict(
+        technique='runtime differential monitor: primal and dual programs solved by every supporting interface, optimal values compared',
+        text='For LPs with every bound pattern, SOC/exp-cone models and robust counterparts (feasible, bounded, strictly '
+             'feasible by construction) do_math() and do_math(primal=False) are both solved; dual optimum must equal minus '
+             'the primal optimum and the dual must be solvable.',
+        note='Solvers trusted where they report optimal; ECOS numerical statuses not judged; LMIs unreachable (no SDP solver).',
+        ref='4/C08', engine='rv-differential'),
+    'C11': dict(
+        technique='runtime differential monitor across solver interfaces + NumPy audit of every returned vector + direct-solver attribution',
+        text='One compiled program goes to every interface supporting its cones; values compared, each returned vector '
+             'audited against the program, failures must carry no numbers; a discrepancy is attributed to the interface '
+             'layer by calling the same solver directly (rv/rawsolve.py). Infeasible/unbounded instances by construction.',
+        note='Third-party solvers are the trusted base; ECOS_BB excluded (unreliable); CLP/CPLEX/MOSEK/COPT not installed.',
+        ref='4/C11', engine='rv-differential'),
+    'C14': dict(
+        technique='runtime reference-model monitor: dual-certificate identities on the user data',
+        text='dual() of every constraint/bound object returned by st() is checked for shape, stationarity, dual objective '
+             '= optimum and signs, for HiGHS, Gurobi and ECOS on LPs with every bound pattern.',
+        note='Identities (not particular values) are checked, so degenerate optima cannot cause false alarms.',
+        ref='4/C14', engine='rv-reference'),
+    'C16': dict(
+        technique='runtime differential monitor: independent LP-format reader, gurobipy.read round trip, cell-by-cell show() comparison',
+        text='lp_export()/to_lp() text is parsed by rv/lpformat.py and must reproduce the formula arrays exactly; Gurobi reads '
+             'the file and must reach the direct optimum; every cell of show() is compared with the formula.',
+        note='Exp-cone rows are not exportable (outside the statement); Gurobi reader semantics for bounded binaries skipped.',
+        ref='4/C16', engine='rv-differential'),
+    'C19': dict(
+        technique='runtime state monitor: read-only traps and digests on user arrays, RNG-state probes, program fingerprints across call sequences and processes',
+        text='User arrays (five representations) are read-only and digest-checked; RNG states probed; primal/dual fingerprints '
+             'compared after repeated do_math, dual formation, every solve, soc_solve, a second build, and two fresh '
+             'processes with different PYTHONHASHSEED; repeated solves must agree.',
+        note='Numeric equality with -0.0 == 0.0 is the meaning of identical.',
+        ref='4/C19', engine='rv-state'),
+})
+
 PENDING = {}
 
 
